@@ -164,6 +164,9 @@ def cell_expr(rng, cell, b):
         if b:
             return {"cls": "BatchRepeat", "base": kron(rng, [1] * len(b), [2, 3]), "rep": list(b)}
         return {"cls": "BatchRepeat", "base": kron(rng, [], [2, 3]), "rep": [2]}
+    if c == "MixScale3":
+        # a batch whose middle member has scale 1e-4 (e.g. a kernel with a tiny outputscale) between members of scale 1
+        return {"cls": "Dense", "t": T(torch.stack([spd(rng, [], 4), 1e-4 * spd(rng, [], 4), spd(rng, [], 4)]))}
     if c == "MixIdentExact3":
         # as MixIdent3 but the middle member is EXACTLY c*I: its first Lanczos residual is exactly 0 (known finding)
         mem = torch.stack([spd(rng, [], 4), rng.uniform(1.5, 3.0) * torch.eye(4, dtype=F64), spd(rng, [], 4)])
@@ -216,7 +219,50 @@ FIXED_BATCH = {"RepeatBatch": [()], "ConstMulScalar": [(), (2,)]}
 # batches mixing p.d. and singular members: cell -> (batch shape, indices of the singular members)
 MIX_CELLS = {"MixDense3": ((3,), [1]), "MixDense2": ((2,), [0])}
 # cells whose batch is part of the cell (cell_expr ignores the batch argument)
-BUILTIN_BATCH = {"MixDense3": (3,), "MixDense2": (2,), "MixIdent3": (3,), "BlockMixIdent": (), "MixIdentExact3": (3,)}
+BUILTIN_BATCH = {"MixDense3": (3,), "MixDense2": (2,), "MixIdent3": (3,), "BlockMixIdent": (), "MixIdentExact3": (3,),
+                 "MixScale3": (3,)}
+# SCALE family: one cell per operator class, the whole operator multiplied by s (scale_expr), Lanczos and direct routes
+SCALE_CELLS = ["Dense3", "Dense5", "Toeplitz4", "Diag4", "Kron23", "KPADconst", "KPADkdiag", "SumKron23", "AddedDiagC",
+               "ConstMulDense", "BlockDiag3x2", "BlockInter2x3", "RepeatDense", "CholL4", "RootFull4"]
+SCALES = [1e-4, 1e-2, 1e2, 1e4]
+SCALE_Q = [("root", "lanczos", False), ("root_inv", "lanczos", False), ("diag", "lanczos", False), ("root", None, False),
+           ("root_inv", None, False), ("root", "symeig", False), ("root_inv", "symeig", False), ("cholesky", None, False),
+           ("eigh", None, False), ("svd", None, False)]
+
+
+def _sc(t, s):
+    return {"shape": list(t["shape"]), "data": [float(v) * s for v in t["data"]]}
+
+
+def scale_expr(e, s):
+    """the opbuild expression of s * (operator of e), scaling the parameters of e (s > 0)"""
+    c = e["cls"]
+    r = math.sqrt(s)
+    if c == "Dense":
+        return dict(e, t=_sc(e["t"], s))
+    if c == "Diag":
+        return dict(e, d=_sc(e["d"], s))
+    if c == "ConstantDiag":
+        return dict(e, c=_sc(e["c"], s))
+    if c == "Toeplitz":
+        return dict(e, col=_sc(e["col"], s))
+    if c in ("Chol", "Triangular"):
+        return dict(e, t=_sc(e["t"], r))
+    if c == "Root" and not (isinstance(e["root"], dict) and "cls" in e["root"]):
+        return dict(e, root=_sc(e["root"], r))
+    if c in ("Kron", "KronDiag"):
+        return dict(e, ops=[scale_expr(e["ops"][0], s)] + list(e["ops"][1:]))
+    if c == "KronAddedDiag":
+        return dict(e, kron=scale_expr(e["kron"], s), diag=scale_expr(e["diag"], s))
+    if c == "SumKron":
+        return dict(e, a=scale_expr(e["a"], s), b=scale_expr(e["b"], s))
+    if c == "AddedDiag":
+        return dict(e, base=scale_expr(e["base"], s), diag=scale_expr(e["diag"], s))
+    if c in ("ConstantMul", "BlockDiag", "BlockInterleaved", "BatchRepeat"):
+        return dict(e, base=scale_expr(e["base"], s))
+    if c in ("Sum", "PsdSum"):
+        return dict(e, ops=[scale_expr(x, s) for x in e["ops"]])
+    raise ValueError("scale_expr: " + c)
 # ill-conditioned p.d. operators: direct (non-Krylov) routes only
 ILL_CELLS = ["IllCondDense4", "IllCondKron23"]
 # operators queried through histories that SHARE them with composites built by add_jitter (shared memoize caches)
@@ -345,6 +391,28 @@ def enumerate_grid(quick=True):
             for q in HIST_Q:
                 for first, target in (("jitter:0.75", "self"), ("jitter:0.75", "jitter:2.0"), ("self", "jitter:0.75")):
                     add(cell, b, q, kind="hist", steps=[[first, q[0], q[1], q[2]]], target=target)
+    # F2. cache WRITER under a small rank bound, then a different-method / default READER on the same object: a partial
+    #     diagonalization(method="lanczos") (max_root_decomposition_size = 2 < n) must not be what a later
+    #     diagonalization("symeig") / default root / inverse root / eigh of the same object is answered with
+    for cell in ["Dense3", "Dense5", "Kron23", "BlockDiag3x2", "AddedDiagC", "ConstMulDense"]:
+        for b in ([(), (2,)] if cell in HIST_BATCHED else [()]):
+            for writer in (("diag", "lanczos", False), ("root", "lanczos", False)):
+                for q in [("diag", "symeig", False), ("diag", None, False), ("root", None, False), ("root_inv", None, False),
+                          ("root", "diagonalization", False), ("root_inv", "diagonalization", False), ("root", "symeig", False),
+                          ("eigh", None, False)]:
+                    add(cell, b, q, mrs=2, kind="hist", steps=[["self", writer[0], writer[1], writer[2]]], target="self")
+    # K. SCALE: every operator class multiplied by s in {1e-4, 1e-2, 1e2, 1e4} (s = 1 is the rest of the grid), Lanczos and
+    #    direct routes, default settings and max_cholesky_size(0); a batch with one member of scale 1e-4
+    for cell in SCALE_CELLS:
+        for s in SCALES:
+            for q in SCALE_Q:
+                add(cell, (), q, scale=s)
+            for q in [("root", None, False), ("root_inv", None, False), ("diag", None, False)]:
+                add(cell, (), q, mcs=0, scale=s)
+    for q in SCALE_Q:
+        add("MixScale3", (3,), q)
+    for q in [("root", None, False), ("root_inv", None, False), ("diag", None, False)]:
+        add("MixScale3", (3,), q, mcs=0)
     # G. batches mixing p.d. members with a singular member, Cholesky-route queries (member-wise jitter), also under
     #    settings.cholesky_jitter(double_value=1e-4)
     for cell, (b, sing) in MIX_CELLS.items():
@@ -414,6 +482,8 @@ def enumerate_grid(quick=True):
 def instantiate(rng, item):
     kind = item.get("kind", "plain")
     expr = cell_expr(rng, item["cell"], [] if item["cell"] in BUILTIN_BATCH else item["batch"])
+    if item.get("scale") is not None:
+        expr = scale_expr(expr, float(item["scale"]))
     case = dict(item)
     case["expr"] = expr
     if kind == "catrows":
